@@ -25,6 +25,9 @@ def _sel():
 
 
 def keys(a):
+    a = np.asarray(a)
+    if a.dtype.kind in "iub":          # integers are compared exactly (beyond 2**53 their double images collide)
+        return [int(x) for x in a.ravel()]
     return [fkey(x) for x in np.asarray(a, dtype=float).ravel()]
 
 
@@ -52,6 +55,11 @@ def hexes(a):
 # ---------------------------------------------------------------- oracles ---
 def oracle_arg(a, is_max, idx):
     """Statement of C18 for rand_argmax/rand_argmin (axis=None)."""
+    a = np.asarray(a)
+    if a.dtype.kind in "iub":
+        v = int(a[tuple(idx)] if a.ndim > 1 else a[idx[0]])
+        best = int(a.max() if is_max else a.min())
+        return None if v == best else f"returned position {list(map(int, idx))} holds {v}, optimum is {best}"
     a = np.asarray(a, dtype=float)
     if np.all(np.isnan(a)):
         return None  # nothing claimed
@@ -124,6 +132,11 @@ def gen_arrays(ctx, tier):
         nd = int(rng.integers(1, 3))
         shape = tuple(int(rng.integers(1, 7)) for _ in range(nd))
         dt = str(rng.choice(["int64", "int32", "int8", "uint8", "uint16", "uint64", "float32", "bool"]))
+        if dt in ("int64", "uint64") and rng.random() < 0.4:
+            # 64-bit integers beyond 2**53 that differ by 1 (time stamps in ns, ids): distinct values, equal as doubles
+            a = (np.array(2 ** 60, dtype=dt) + rng.integers(0, 4, size=shape).astype(dt)).astype(dt)
+            yield relayout(a, int(rng.integers(0, 4))), f"dtype:{dt}:huge"
+            continue
         if dt == "bool":
             a = rng.random(shape) < 0.5
         elif dt.startswith("uint"):
